@@ -9,6 +9,7 @@ U2S = ("u2_mapper_reader", {"profile": "safety"})
 U10M = ("u10_typed_trace", {"which": "mapper"})
 U10C = ("u10_typed_trace", {"which": "cache"})
 
+U8 = ("u8_writer_tail", {})
 U4 = ("u4_cache_parse", {})
 U7 = ("u7_metadata", {})
 
@@ -34,7 +35,7 @@ PROPS = {
     },
     "C02": {
         "title": "A cache written from a mapping answers every query exactly like the mapper",
-        "units": [U1F, U2F],
+        "units": [U1F, U2F, U8],
         "kani": [],
         "technique": "refinement: both readers proved (Verus) against the SAME spec functions retrace/by_params/unanimous through abs_member / abs_mm",
         "level_text": "Both readers are verified against one shared abstract model, so equal abstract entries give equal answers for remap_class, "
@@ -45,7 +46,7 @@ PROPS = {
     },
     "C03": {
         "title": "Parameter-based retrace",
-        "units": [U1F, U2F],
+        "units": [U1F, U2F, U8],
         "kani": [],
         "technique": "Verus contracts: iterate_without_lines == head of by_params(); remap_frame(by params) == exact (name, params) block",
         "level_text": "Proof that a frame carrying parameters is answered from exactly the entries whose (obfuscated name, params) match, one frame "
@@ -76,6 +77,50 @@ PROPS = {
                     "'printing the typed result equals the text API output' is not decided (Display / fmt)",
                     "#[derive(Clone)] on Throwable is a field-wise copy"],
         "design_ref": "DESIGN.md 5/C08",
+    },
+    "C09": {
+        "title": "Written cache files conform to the documented layout and ordering invariants",
+        "units": [U8],
+        "kani": ["k1_header_layout", "k1_class_layout", "k1_member_layout", "k2_format_constants"],
+        "technique": "Verus proof that the writer tail emits exactly canonical() = the documented v1 layout (header, padded sections, tiling class ranges); Kani (complete, loop-free) for record byte layouts and constants",
+        "level_text": "The part of ProguardCache::write after the record-collection loop is proved to deliver exactly canonical(classes, strings): "
+                      "header with magic/version and counts taken from the data, class records whose member and by-params ranges start where the "
+                      "previous class's ranges end (each in its own section), then members, by-params and strings, each section zero-padded to 8 "
+                      "bytes; the byte image of each record (size, alignment, little-endian field order) is proved by Kani for all field values. "
+                      "Sortedness of classes/members and the contents of the string section come from BTreeMap iteration order and "
+                      "watto::StringTable inside the collection loop and are assumed; `test()` accepting every such file is not decided.",
+        "assumed": [BUILDERS_ASSUMED, "BTreeMap::into_values/values iterate in ascending key order (std)",
+                    "the collection loop keeps class.members_len / members_by_params_len equal to the number of records in the class's maps (wf_cip)",
+                    "watto::StringTable::into_bytes / insert (string section contents, interning)",
+                    "Pod::as_bytes byte images are abstract in the Verus proof; their layout is what Kani K1 proves"],
+        "not_decided": ["strict sortedness of the class section and (name, params) order of the by-params section (produced inside the unreachable collection loop)",
+                        "string section validity (watto)", "ProguardCache::test() never panics on writer output"],
+        "design_ref": "DESIGN.md 5/C09",
+    },
+    "C15": {
+        "title": "Cache writing is independent of sink chunking and propagates sink errors",
+        "units": [U8],
+        "kani": [],
+        "technique": "Verus: io::Write as an external trait contract with ghost `sunk`; PaddedWriter and the writer tail proved: Ok => sunk' == sunk ++ canonical, Err => only a prefix of canonical was delivered",
+        "level_text": "For EVERY sink obeying the io::Write contract (write accepts any prefix; write_all delivers all or fails after a prefix): if "
+                      "ProguardCache::write's tail returns Ok the sink accepted exactly the canonical bytes, and if any sink call fails the tail "
+                      "returns Err having delivered a prefix of the canonical bytes. Quantification over sinks is by the trait contract, not by enumeration.",
+        "assumed": ["std's provided Write::write_all implements its documented contract (loop over write, retry Interrupted)",
+                    "`impl Write for &mut W` forwards to W (std)", "the collection loop before the tail performs no I/O (it does not: by inspection, no writer use before line 320)"],
+        "design_ref": "DESIGN.md 5/C15",
+    },
+    "C10": {
+        "title": "Version-1 cache files mean the same to every release that accepts them",
+        "units": [U4, U8, U1F],
+        "kani": ["k1_header_layout", "k1_class_layout", "k1_member_layout", "k2_format_constants"],
+        "technique": "conformance of the CURRENT reader (parse, lookups) and writer tail to one frozen v1 specification (Verus contracts + Kani layout proofs); histories are not quantified",
+        "level_text": "A per-call contract cannot quantify over release pairs. What is proved: the current writer tail emits the frozen v1 layout "
+                      "(canonical()), the current parse accepts exactly buffers covering the header-implied v1 layout and rejects other versions "
+                      "with WrongVersion, record byte layouts/constants/sentinels are as documented (Kani), and the reader interprets records "
+                      "by the shared model (u32::MAX = absent, line rule). Two releases that both satisfy these obligations read each other's files "
+                      "identically; a change of layout/sentinel/order without a version bump fails one of these obligations.",
+        "assumed": [BUILDERS_ASSUMED, "string encoding (watto)", "the pinned 5.5.0 release is represented by the frozen spec written from its docs and source, not re-verified"],
+        "design_ref": "DESIGN.md 5/C10",
     },
     "C11": {
         "title": "Torn, foreign or wrong-version cache files are rejected, never half-read",
